@@ -151,6 +151,10 @@ class Gen:
         return 'v%d' % self.nvar
 
     @staticmethod
+    def hide(vars_, name):
+        return tuple(v for v in vars_ if v[0] != name)
+
+    @staticmethod
     def visible(vars_):
         """the innermost binding of every name: [(name, kind, flavour)]"""
         seen = {}
@@ -197,6 +201,12 @@ class Gen:
     def boolean(self, d, sc):
         vars_, focus = sc
         k = self.k()
+        if self.reuse and vars_ and d < self.max_depth and self.k() < 30:
+            outer = [['var', nm] for nm, kind, fl in self.visible(vars_) if kind == 'item']
+            if outer:       # an inner quantifier, then the outer variable read again
+                v = _sf(self.draw, outer)
+                return [_sf(self.draw, ['and', 'or']), self.quantified(d, sc),
+                        ['call', _sf(self.draw, ['exists', 'empty']), [['call', 'index-of', [v, v]]]]]
         if d >= self.max_depth:
             if focus is not None and k < 50:
                 return ['vcmp', _sf(self.draw, _CMP), ['pos'], _sf(self.draw, [['last'], ['int', 1], ['int', 2], ['int', 3]])]
@@ -229,8 +239,10 @@ class Gen:
         out = []
         for _ in range(n):
             fl = _sf(self.draw, flavors or 'iiinsm')
-            e = self.seq(fl, d + 1, (vars_, focus))
             nm = self.fresh()
+            # the range expression never refers to the name it binds: elementpath rejects that statically even when
+            # an outer variable of that name is in scope (known finding C08/range-uses-rebound-name, pinned by tests)
+            e = self.seq(fl, d + 1, (self.hide(vars_, nm), focus))
             out.append([nm, e])
             vars_ = vars_ + ((nm, 'item', fl),)
         return out, (vars_, focus)
@@ -243,7 +255,7 @@ class Gen:
     def seq(self, flavor, d, sc):
         vars_, focus = sc
         k = self.k()
-        if self.reuse and vars_ and d < self.max_depth and self.k() < 22:
+        if self.reuse and vars_ and d < self.max_depth and self.k() < 35:
             # an inner binder (very likely re-binding a visible name), then an outer variable read again
             outer = [['var', nm] for nm, kind, fl in self.visible(vars_) if fl in _SUB[flavor]]
             if outer:
@@ -293,7 +305,7 @@ class Gen:
         if k < 95 and self.v != '20':
             nm = self.fresh()
             f2 = _sf(self.draw, 'iiinsm')
-            e = self.seq(f2, d + 1, sc)
+            e = self.seq(f2, d + 1, (self.hide(vars_, nm), focus))
             return ['let', [[nm, e]], self.seq(flavor, d + 1, (vars_ + ((nm, 'seq', f2),), focus))]
         if flavor in 'inm' and k < 98:
             return ['to', self.int1(d + 1, sc), self.int1(d + 1, sc)]
@@ -350,6 +362,13 @@ TOP = ((), None)
 def nested_program(draw, version='31', max_depth=3):
     g = Gen(draw, version, max_depth, reuse=draw(_upto(9)) < 5)
     k = draw(_upto(99))
+    if g.reuse and k < 60:
+        # an outer binder at the root, so that inner binders have a name to re-bind
+        fl = _sf(draw, 'iiinnsmu')
+        b, sc2 = g.binds(0, TOP)
+        if draw(_upto(2)):
+            return ['for', b, g.seq(fl, 1, sc2)]
+        return [_sf(draw, ['some', 'every']), b, g.boolean(1, sc2)]
     if k < 70:
         return g.seq(_sf(draw, 'iiinnsmu'), 0, TOP)
     if k < 85:
@@ -417,6 +436,7 @@ def direct_calls(draw, version):
         ['for', [['x', S]], ['seq', [q1, [['y', T], ['x', ['seq', Y, Y]]], ['bool', q1 == 'every']], X]],
         ['for', [['x', S]], ['seq', X, ['filter', T, [q2, [['x', ['ctx']]], c('exists', X)]], X]],
         [q1, [['x', S]], ['and', c('exists', ['for', [['x', T]], X]), inS(X)]],
+        ['for', [['x', S]], ['for', [['x', ['seq', X, T]]], X]],      # legal XPath; known finding (rejected statically)
     ]
     if version != '20':
         out += [
